@@ -160,7 +160,9 @@ func fnPkgPath(fn *ssa.Function) string {
 
 // isSynthetic: bound-method closures, thunks and promoted-method wrappers have
 // no package of their own; they are traversed transparently.
-func isSynthetic(fn *ssa.Function) bool { return fn.Synthetic != "" && fn.Pkg == nil }
+func isSynthetic(fn *ssa.Function) bool {
+	return fn.Synthetic != "" && fn.Pkg == nil && fn.Origin() == nil // instances of generic functions are real code
+}
 
 // shortPkg strips the module prefix: "github.com/textwire/textwire/v2/parser" -> "parser", root -> "textwire".
 func shortPkg(path string) string {
